@@ -104,7 +104,7 @@ class Session(object):
                 self.n_requery = getattr(self, "n_requery", 0) + 1
                 if float(np.max(np.abs(gv - greal), initial=0.0)) > 1e-9 * (1.0 + float(np.max(np.abs(greal), initial=0.0))):
                     self.unrepresentable = getattr(self, "unrepresentable", []) + [
-                        "the subgradient answered at an already evaluated point is tied to %s, the real run picked the admissible %s"
+                        "not declared differentiable, yet the subgradient answered at an already evaluated point is tied to %s; the real run picked the admissible %s"
                         % (np.round(gv, 6).tolist(), np.round(greal, 6).tolist())]
             except KeyError:
                 pass
@@ -118,6 +118,12 @@ class Session(object):
         kinds = []
         scale = rng.choice([1.0, 1.0, 0.1, 5.0])
         st = m.stationary()
+        st_all = list(m.stationary_list()) if hasattr(m, "stationary_list") else ([st] if st is not None else [])
+        n_stat = 0
+        n_fix = 0
+        fp_all = []
+        if m.kind == "operator":
+            fp_all = list(m.fixed_point_list()) if hasattr(m, "fixed_point_list") else ([m.fixed_point()] if m.fixed_point() is not None else [])
         for _ in range(n_events):
             r = rng.random()
             if r < 0.45 or not pts:
@@ -149,16 +155,30 @@ class Session(object):
                 kinds.append("eval:repeat")
             elif r < 0.82 and st is not None and self.cls != "SmoothStronglyConvexQuadraticFunction":
                 xs, gs, fs = self.f.stationary_point(return_gradient_and_function_value=True)
-                self.bind_point(xs, st)
-                self.evals[id(fs)] = m.value(st)
+                st_k = st_all[n_stat % len(st_all)]      # a non-convex member has stationary points with different values
+                n_stat += 1
+                if id(fs) in self.evals and abs(self.evals[id(fs)] - m.value(st_k)) > 1e-9 * (1 + abs(m.value(st_k))):
+                    self.unrepresentable = getattr(self, "unrepresentable", []) + [
+                        "the value handed out for a new stationary point is tied to %.6g, the real function has %.6g there"
+                        % (self.evals[id(fs)], m.value(st_k))]
+                self.bind_point(xs, st_k)
+                self.evals.setdefault(id(fs), m.value(st_k))
+                st = st_k
                 pts.append(xs)
                 kinds.append("stationary")
                 if rng.random() < 0.5:
                     self.oracle(xs)     # the method may well start at (or come back to) the optimum: another subgradient there
                     kinds.append("eval:at_stationary")
-            elif r < 0.88 and m.kind == "operator" and m.fixed_point() is not None:
+            elif r < 0.88 and m.kind == "operator" and fp_all:
                 xf, _, ff = self.f.fixed_point()
-                self.bind_point(xf, m.fixed_point())
+                fp_k = fp_all[n_fix % len(fp_all)]        # an operator may have several fixed points (identity, projections)
+                n_fix += 1
+                if id(xf) in self.pvals and float(np.max(np.abs(self.pvals[id(xf)] - fp_k))) > 1e-9 * (1 + float(np.max(np.abs(fp_k)))):
+                    self.unrepresentable = getattr(self, "unrepresentable", []) + [
+                        "the point handed out for a new fixed point is tied to %s, the real operator also has the fixed point %s"
+                        % (np.round(self.pvals[id(xf)], 6).tolist(), np.round(fp_k, 6).tolist())]
+                else:
+                    self.bind_point(xf, fp_k)
                 self.evals[id(ff)] = 0.0
                 pts.append(xf)
                 kinds.append("fixed_point")
@@ -396,11 +416,11 @@ def run_shard(spec):
                              "params": {a: (b if b != float("inf") else "inf") for a, b in params.items()}, "member": fam, "events": kinds})
         counters["requeries_of_nondifferentiable"] = counters.get("requeries_of_nondifferentiable", 0) + getattr(s, "n_requery", 0)
         if getattr(s, "unrepresentable", None):
-            key = "admissible_subgradient_not_representable:%s" % cls
+            key = "real_sample_not_representable:%s" % cls
             if len(viol) < 12 and not any(x["key"] == key for x in viol):
                 viol.append({"key": key, "cls": cls, "rng": sd, "member": fam, "events": kinds,
                              "params": {a: (b if b != float("inf") else "inf") for a, b in params.items()},
-                             "what": "%s (not declared differentiable), member %s: %s; events %s" % (cls, fam, s.unrepresentable[0], kinds)})
+                             "what": "%s, real member %s: %s; events %s" % (cls, fam, s.unrepresentable[0], kinds)})
         if len(samples) < 2:
             samples.append({"rng": sd, "cls": cls, "member": s.member.describe(), "params": regime(params), "events": kinds,
                             "n_samples": len(s.f.list_of_points), "n_constraints": len(res),
